@@ -22,6 +22,7 @@ type Monitors struct {
 	c *Cluster
 	// which monitors are on
 	Commit, Vote, Pace, Exec bool
+	Blocks                   bool // stored blocks stay content-addressed (C13)
 
 	Viol []MonViolation
 
@@ -618,3 +619,27 @@ func (m *Monitors) checkExecEnd() {
 }
 
 var _ = vbase.Sig
+
+// checkStoredBlocks (C13): whatever a replica went through - proposals, fetches, commits, execution, pruning - every block
+// it holds under hash h still serializes to bytes whose digest is h (and that are the bytes the block was created with).
+func (m *Monitors) checkStoredBlocks() {
+	if !m.Blocks {
+		return
+	}
+	for _, a := range m.c.Actors {
+		if !a.Judged() || a.Node == nil {
+			continue
+		}
+		for _, b := range m.c.W.Blocks.All() {
+			st, ok := a.M.Chain.LocalGet(b.Hash())
+			if !ok {
+				continue
+			}
+			m.Obs["stored_blocks_checked"]++
+			if sha256.Sum256(st.ToBytes()) != [32]byte(st.Hash()) {
+				m.violate("C13", "stored-block-mutated", "%s: the block it holds under hash %.8x (view %d, %d commands) no longer hashes to that value - a stored block was modified in place", a.Name(), st.Hash(), st.View(), len(st.Commands().GetCommands()))
+				return
+			}
+		}
+	}
+}
